@@ -19,13 +19,14 @@ SufKeys  == {SufList[i].key : i \in DOMAIN SufList}
 Suffixes == [k \in SufKeys |-> SufList[CHOOSE i \in DOMAIN SufList : SufList[i].key = k].val]
 
 VARIABLES l,        \* next trace line
-          mem,      \* learned map: typed word -> [cand : the preferred candidate, typed : the text it was learned on]
+          mem,      \* learned map: typed word -> [cand : the preferred candidate (stripped), typed : the text it was learned on,
+                    \*                               full : the candidate text as it was committed]
           cur,      \* the list most recently shown (line number), 0 = none
           seen      \* typed text -> preselected index shown for it since the last learning commit
 vars == <<l, mem, cur, seen>>
 
 PreserveChars == {".", "?", "!", ",", ":", ";", "-", "_", ")", "}", "]", "'", "\""}
-Empty == [k \in {} |-> [cand |-> <<>>, typed |-> <<>>]]
+Empty == [k \in {} |-> [cand |-> <<>>, typed |-> <<>>, full |-> <<>>]]
 NoneSeen == [t \in {} |-> 0]
 Init == l = 1 /\ mem = Empty /\ cur = 0 /\ seen = NoneSeen
 
@@ -46,11 +47,9 @@ PreOf(e)   == LET p == ImplSplit(e.typed, FALSE)
                   raw == Parts(e.tlp[Len(p.pre) + 1], p.word, e.tls[Len(p.trail) + 1])
               IN IF e.smart THEN SmartQuote(raw) ELSE raw
 
-\* Known finding F11 (known_findings.json): the learned choice is the raw typed English text and the word is wrapped
-\* in quotes that smart quoting curls - the lookup wraps the raw word in the curled quotes and does not find the
-\* (uncurled) raw candidate.  Accepted explicitly, and reported.
-HasCurly(s) == \E i \in 1..Len(s) : s[i] \in {"‘", "’", "“", "”"}
-KnownF11(cand, key, w) == cand = key /\ E.smart /\ (HasCurly(w.pre) \/ HasCurly(w.trail)) /\ PrintT(<<"TRACE-KNOWN", "F11", l>>)
+\* (F11, repaired by 821f48d: the learned choice is the raw typed English text and the word is wrapped in punctuation
+\* that the transliteration converts or smart quoting curls - the raw candidate keeps the characters as typed, so it is
+\* not wrap(stripped choice); what the statement demands is "that same candidate text": mem[key].full)
 
 \* C09: the preselected candidate of a shown list
 List ==
@@ -67,7 +66,7 @@ List ==
                Require(mem[key].typed = E.typed =>
                           \/ shown = wrap(mem[key].cand)
                           \/ (Last(E.typed) \in PreserveChars /\ E.sel = E.psel)
-                          \/ KnownF11(mem[key].cand, key, w),
+                          \/ shown = mem[key].full,
                        "the same text is typed again, but its learned choice is not the preselected candidate")
           ELSE LET rd == SuffixReadings(mem, key, Suffixes) IN
                Require((\E x \in rd : wrap(x) \in Range(E.cands)) =>
@@ -90,7 +89,7 @@ Commit ==
     /\ LET L == Rec[cur] IN
        mem' = IF E.idx # L.sel /\ E.idx + 1 \in DOMAIN L.cands
               THEN [k \in DOMAIN mem \cup {KeyOf(L.typed)} |->
-                        IF k = KeyOf(L.typed) THEN [cand |-> StripCand(L.cands[E.idx + 1]), typed |-> L.typed] ELSE mem[k]]
+                        IF k = KeyOf(L.typed) THEN [cand |-> StripCand(L.cands[E.idx + 1]), typed |-> L.typed, full |-> L.cands[E.idx + 1]] ELSE mem[k]]
               ELSE mem
     \* a learning commit for the word K can change the preselection of the texts whose word is K or begins with K (K as base)
     /\ seen' = (IF E.idx # Rec[cur].sel
